@@ -109,14 +109,74 @@ func (p *c16Parser) cps() []rune {
 	}
 }
 
-// c16CheckRune: the model folds ASCII case only; every code point must fold the same way in Go.
+// the non-ASCII letters with a case mapping the universe may contain: the model's folding table
+// (Model/Equality.lean foldC, lowerC) covers Latin-1, Greek (with the final sigma) and Cyrillic
+var c16CasedAlphabet = []rune{'É', 'é', 'Σ', 'σ', 'ς', 'Д', 'д'}
+
+// c16CheckRune: every emitted code point is ASCII, a member of the cased alphabet (verified against
+// Go's folding by c16CheckAlphabet) or has no case mapping at all.
 func c16CheckRune(r rune) {
 	if r < 128 {
 		return
 	}
-	if unicode.SimpleFold(r) != r || unicode.ToLower(r) != r || unicode.ToUpper(r) != r {
-		panic(fmt.Sprintf("c16: code point %U has a case mapping outside the model's ASCII folding", r))
+	for _, a := range c16CasedAlphabet {
+		if a == r {
+			return
+		}
 	}
+	if unicode.SimpleFold(r) != r || unicode.ToLower(r) != r || unicode.ToUpper(r) != r {
+		panic(fmt.Sprintf("c16: code point %U has a case mapping outside the model's folding alphabet", r))
+	}
+}
+
+// c16CheckAlphabet: on every pair of code points of the alphabet (ASCII letters, digits, the cased
+// non-ASCII letters) the model's folding is Go's: strings.EqualFold <=> model equal on one-letter
+// strings, unicode.ToLower equality <=> model equalp on characters. A difference is a machinery
+// error (the alphabet leaves the model's table), not a verdict about slip.
+func c16CheckAlphabet(c *lib.Ctx) {
+	var alpha []rune
+	for r := rune(' '); r < 127; r++ {
+		alpha = append(alpha, r)
+	}
+	alpha = append(alpha, c16CasedAlphabet...)
+	alpha = append(alpha, '→')
+	g := &c16Gen{next: 9000000}
+	var wires []string
+	for _, r := range alpha {
+		wires = append(wires, g.str(string(r)))
+	}
+	for _, r := range alpha {
+		wires = append(wires, g.chr(r))
+	}
+	f := strings.Fields(c.Model([]string{"eq matrix " + strings.Join(wires, " ")})[0])
+	if len(f) != 6 || f[0] != "ok" {
+		panic("c16 alphabet: model reply")
+	}
+	n := len(wires)
+	for i, a := range alpha {
+		for j, b := range alpha {
+			if (f[3][i*n+j] == '1') != strings.EqualFold(string(a), string(b)) {
+				panic(fmt.Sprintf("c16 alphabet: model equal on strings %q %q differs from strings.EqualFold", string(a), string(b)))
+			}
+			k, l := len(alpha)+i, len(alpha)+j
+			if (f[4][k*n+l] == '1') != (unicode.ToLower(a) == unicode.ToLower(b)) {
+				panic(fmt.Sprintf("c16 alphabet: model equalp on characters %q %q differs from unicode.ToLower", string(a), string(b)))
+			}
+		}
+	}
+	c.Ev.Coverage["alphabet_pairs_checked_against_go_folding"] = len(alpha) * len(alpha)
+}
+
+// c16HasNonASCIICase: the object contains a non-ASCII letter with a case mapping
+func c16HasNonASCIICase(o *c16Obj) bool {
+	for _, r := range o.text {
+		for _, a := range c16CasedAlphabet {
+			if a == r {
+				return true
+			}
+		}
+	}
+	return false
 }
 
 func (p *c16Parser) obj() *c16Obj {
@@ -335,6 +395,11 @@ func c16FixedUniverse(g *c16Gen) []string {
 		g.chr('a'), g.chr('A'), g.chr('a'), g.chr('5'), g.chr('→'),
 		// strings
 		g.str("abc"), g.str("ABC"), g.str("abc"), g.str("Abc"), g.str("abd"), g.str(""), g.str(""), g.str("5"), g.str("a→b"), g.str("A→b"), g.str("a"),
+		// non-ASCII letters in both cases (strings fold with strings.EqualFold, characters with unicode.ToLower:
+		// the final sigma is EqualFold to the other two sigmas and its own lower case)
+		g.str("Σ"), g.str("σ"), g.str("ς"), g.str("aΣb"), g.str("Aσb"), g.str("é"), g.str("É"), g.str("Дa"), g.str("дA"),
+		g.chr('Σ'), g.chr('σ'), g.chr('ς'), g.chr('é'), g.chr('É'), g.sym("σx"), g.sym("Σx"),
+		g.list(g.str("Σ"), g.chr('σ')), g.list(g.str("σ"), g.chr('Σ')), g.list(g.str("σ"), g.chr('σ')), g.vec(g.str("Σ")), g.vec(g.str("σ")),
 		// symbols
 		g.sym("abc"), g.sym("ABC"), g.sym("Abc"), g.sym("abd"), g.sym(":abc"), g.sym("a"), g.sym("5"),
 		// lists
@@ -421,11 +486,18 @@ func (g *c16Gen) randomLeaf() string {
 		}
 		return g.num(reps[r.Intn(len(reps))], v)
 	case 5:
+		if !c16AvoidNonASCIICase && r.Chance(30) {
+			return g.chr(c16CasedAlphabet[r.Intn(len(c16CasedAlphabet))])
+		}
 		return g.chr([]rune{'a', 'A', 'b', 'B', '1', ' ', '→', 'z'}[r.Intn(8)])
 	case 6, 7:
 		n := r.Intn(4)
 		var sb strings.Builder
 		for i := 0; i < n; i++ {
+			if !c16AvoidNonASCIICase && r.Chance(25) {
+				sb.WriteRune(c16CasedAlphabet[r.Intn(len(c16CasedAlphabet))])
+				continue
+			}
 			sb.WriteRune([]rune{'a', 'A', 'b', 'B', '1', ' ', '→'}[r.Intn(7)])
 		}
 		return g.str(sb.String())
@@ -456,6 +528,22 @@ func (g *c16Gen) variantOf(w string, o *c16Obj, depth int) string {
 					rs[i] = unicode.ToLower(c)
 				} else if unicode.IsLower(c) && c < 128 {
 					rs[i] = unicode.ToUpper(c)
+				} else if c >= 128 {
+					// the cased non-ASCII letters of the alphabet (only present when not avoided)
+					switch c {
+					case 'É':
+						rs[i] = 'é'
+					case 'é':
+						rs[i] = 'É'
+					case 'Σ':
+						rs[i] = []rune{'σ', 'ς'}[r.Intn(2)]
+					case 'σ', 'ς':
+						rs[i] = 'Σ'
+					case 'Д':
+						rs[i] = 'д'
+					case 'д':
+						rs[i] = 'Д'
+					}
 				}
 			}
 		}
@@ -463,6 +551,9 @@ func (g *c16Gen) variantOf(w string, o *c16Obj, depth int) string {
 	}
 	if c16AvoidNegZero && o.rat != nil && o.rat.Sign() == 0 {
 		return g.num('f', big.NewRat(1, 1)) // no zero-valued numbers next to the listed negative zero
+	}
+	if c16AvoidNonASCIICase && c16HasNonASCIICase(o) {
+		return g.str("x") // no composite object next to the listed non-ASCII case construct
 	}
 	switch o.kind {
 	case "null", "other":
@@ -885,6 +976,9 @@ func c16CheckUniverse(c *lib.Ctx, u *c16Universe) {
 					if eqModel && c16HasNegZero(a) != c16HasNegZero(b) {
 						sig = "law=sxhash aspect=codes-differ:negative-zero"
 					}
+					if eqModel && (c16HasNonASCIICase(a) || c16HasNonASCIICase(b)) {
+						sig = "law=sxhash aspect=codes-differ:non-ascii-case"
+					}
 					c.Report(sig, sweep(i, j), rp)
 				}
 			}
@@ -943,9 +1037,12 @@ func c16HashAspect(a, b *c16Obj, modelEqual bool) string {
 
 // composite generators do not emit a construct a listed finding is about
 var c16AvoidNegZero bool
+var c16AvoidNonASCIICase bool
 
 func c16PredFamily(c *lib.Ctx) {
 	c16AvoidNegZero = c.Findings.Listed("C16", "law=sxhash aspect=codes-differ:negative-zero")
+	c16AvoidNonASCIICase = c.Findings.Listed("C16", "law=sxhash aspect=codes-differ:non-ascii-case")
+	c16CheckAlphabet(c)
 	// round 0: the sweep universe plus a random part; further rounds: a third of the sweep objects
 	// as anchors, variants of them (composite: fresh tokens, changed representations) and random objects
 	rounds := c.Scale(2, 100)
@@ -995,6 +1092,8 @@ func runC16(c *lib.Ctx) {
 	c16PredFamily(c)
 	c16HashFamily(c)
 	c16TypeFamily(c)
+	c16DynFamily(c)
+	c16ExtFamily(c)
 	c16CompoundFamily(c)
 	if c.GenBroken != "" {
 		// a generated obligation (Theorems/GenC16) no longer builds: attach it to the witnesses the
